@@ -190,6 +190,26 @@ func monC04(c *drv.Ctx) {
 		cs.C.ObsMax("max_zero_run_tolerated", int64(run))
 	})
 
+	// (3b') empty reads between the last data and the error, every count below the no-progress limit: the error
+	// that surfaces is still the source's own, and the data before it is still delivered
+	c.Stage("empty-reads-before-the-error", 100*3, true, func(cs *drv.Case) {
+		k := int(cs.Idx % 100)
+		kind := int(cs.Idx / 100)
+		L := []int{0, 7, 5000}[cs.R.Intn(3)]
+		ops := []rOp{{Kind: opPeek, N: L + 1}, {Kind: opNext, N: L}, {Kind: opNext, N: 1}, {Kind: opReadBinary, N: 4}, {Kind: opSkip, N: 1}, {Kind: opRelease}, {Kind: opPeek, N: 1}}
+		if cs.R.Intn(2) == 0 {
+			ops = append([]rOp{{Kind: opNext, N: L / 2}, {Kind: opReadBinary, N: L + 9}}, ops...)
+		}
+		spec := srcSpec{Len: L, ErrAt: L, ErrKind: kind, Sched: []int{doubles.SchedOne, doubles.SchedSmall, doubles.SchedHuge, doubles.SchedRandom}[cs.R.Intn(4)], ZerosBeforeErr: k}
+		if k == 99 {
+			spec.ZeroMax = 0
+		}
+		cs.Desc = M{"ops": opsString(ops), "source": spec.desc()}
+		runReaderHistory(cs, ops, spec, readerOpts{})
+		cs.Count(true, "zerosbeforeerr", k, kind, L)
+		cs.C.ObsMax("max_empty_reads_before_the_error", int64(k))
+	})
+
 	// (3a') standard-library sources holding the whole stream (readers that also have Len/WriteTo/ReadByte, the
 	// iotest fragmenters, Limit/Multi/Section readers): histories that mix requests beyond the stream (which must
 	// fail and consume nothing) with requests the stream can still satisfy afterwards
